@@ -58,6 +58,8 @@ def tree_spec(rng):
     def ts():
         return rng.randrange(10 ** 18, 17 * 10 ** 17)          # 2001 … 2023, nanoseconds, all 8 bytes in use
     def data(n):
+        if n > 512:
+            return "gen:%d:%d" % (rng.randrange(1 << 30), n)         # generated at tree-building time (keeps replays small)
         return bytes(rng.randrange(256) for _ in range(n)).hex()
     spec = [("dir", "dir1", "", ts(), ts()), ("dir", "dir1/sub", "", ts(), ts()), ("dir", "emptydir", "", ts(), ts()),
             ("file", "a.txt", data(rng.randrange(37, 300)), ts(), ts()),
@@ -81,7 +83,12 @@ def make_tree(base, spec):
             os.makedirs(p, exist_ok=True)
         elif kind == "file":
             with open(p, "wb") as f:
-                f.write(bytes.fromhex(content))
+                if content.startswith("gen:"):
+                    import random
+                    _, sd, n = content.split(":")
+                    f.write(random.Random(int(sd)).randbytes(int(n)))
+                else:
+                    f.write(bytes.fromhex(content))
         elif kind == "hardlink":
             os.link(os.path.join(base, content), p)
         elif kind == "symlink":
@@ -298,7 +305,8 @@ def ep_path_filestat(eid, rng, abi):
     rel = rng.choice(RO_ANY + ["ro/dangling", "ro/missing", "rw/seed.txt"])
     follow = rng.choice([0, 1])
     pa, pl = e.path(rel)
-    h = e.aux("hstat " + rel + " " + str(follow) + " %s")
+    # the host's own view, following a final symlink and not (which of the two the host implements is C14's business, not C19's)
+    h = [e.aux("hstat " + rel + " " + str(follow) + " %s"), e.aux("hstat " + rel + " " + str(1 - follow) + " %s")]
     size = FILESTAT[abi][2]
     p = e.alloc(size + 8, 8, rng)
     e.fill(p, size + 8)
@@ -622,8 +630,13 @@ def canonical(ep, out):
         elif kind == "raw":
             res.append((lab, f["fn"], f["abi"], f["field"], v, False))
         elif kind == "host":
-            hv = host_value(out.get(f["host"][0]), f["host"][1])
+            hls = f["host"][0] if isinstance(f["host"][0], list) else [f["host"][0]]
+            hv = None
             iv = int(v)
+            for hl in hls:
+                cand = host_value(out.get(hl), f["host"][1])
+                if cand is not None and (hv is None or iv in cand):
+                    hv = cand
             if hv is not None and iv in hv:
                 res.append((lab, f["fn"], f["abi"], f["field"], "host" + ("" if iv == hv[0] else "(seconds)"), not palindromic(iv, f["w"])))
             else:
